@@ -4,6 +4,7 @@
 From Coq Require Import NArith Bool List Permutation Sorted.
 Import ListNotations.
 From XetModel Require Import Base.Codec Gen.ShardLayout Model.Merkle Model.Shard Proofs.CodecProofs Proofs.ShardProofs Proofs.SearchProofs Proofs.SetOpSortedProofs Proofs.ShardWholeProofs Proofs.ShardSizeProofs.
+From XetModel Require Import Proofs.StreamProofs.
 Open Scope N_scope.
 
 (* every fixed-width record codec round-trips (whatever field order the source uses, as long as
@@ -94,6 +95,19 @@ Theorem C09_size_accounting_exact : forall ops, Forall mop_ok ops ->
   let m := fold_left mstep_add ops ms_empty in N.of_nat (length (serialize_from m)) = shard_file_size m.
 Proof. exact built_shard_size_exact. Qed.
 
+
+(* the streaming walk (process_shard_stream: header, then each section record by record up to its bookend, no footer, no lookup
+   tables): over a serialized shard the callbacks are handed exactly the serialized records, in order, and each of them parses
+   back to its record -- a streaming reader sees what the seekable scans list *)
+Theorem C09_streaming_walk_lists_all_records : forall files cass ctbl key created expiry, Forall wf_file files -> Forall wf_cas cass ->
+  stream_walk (w_bs files cass ctbl key created expiry) = Some (map ser_file_info files, map ser_cas_info cass).
+Proof. exact stream_walk_serialized. Qed.
+Theorem C09_streaming_walk_records_parse_back : forall files cass ctbl key created expiry, Forall wf_file files -> Forall wf_cas cass ->
+  exists fb cb, stream_walk (w_bs files cass ctbl key created expiry) = Some (fb, cb)
+    /\ Forall2 (fun b f => parse_file_info b = Some (Some f, [])) fb files
+    /\ Forall2 (fun b c => parse_cas_info b = Some (Some c, [])) cb cass.
+Proof. exact stream_walk_records. Qed.
+
 Print Assumptions C09_file_record_roundtrip.
 Print Assumptions C09_cas_record_roundtrip.
 Print Assumptions C09_file_section_scan.
@@ -104,3 +118,5 @@ Print Assumptions C09_scans_list_all_records.
 Print Assumptions C09_stored_file_found.
 Print Assumptions C09_absent_file_not_found.
 Print Assumptions C09_size_accounting_exact.
+Print Assumptions C09_streaming_walk_lists_all_records.
+Print Assumptions C09_streaming_walk_records_parse_back.
